@@ -702,7 +702,9 @@ func init() {
 			{"email-verified-string-false", func(p *fakeIDP) { p.claimOverride = map[string]interface{}{"email_verified": "false"} }},
 			{"email-verified-zero", func(p *fakeIDP) { p.claimOverride = map[string]interface{}{"email_verified": 0} }},
 			{"email-verified-string-no", func(p *fakeIDP) { p.claimOverride = map[string]interface{}{"email_verified": "no"} }},
-			{"email-verified-object", func(p *fakeIDP) { p.claimOverride = map[string]interface{}{"email_verified": map[string]interface{}{"v": false}} }},
+			{"email-verified-object", func(p *fakeIDP) {
+				p.claimOverride = map[string]interface{}{"email_verified": map[string]interface{}{"v": false}}
+			}},
 		}
 		resetIDP := func(p *fakeIDP) {
 			p.mu.Lock()
